@@ -6,7 +6,7 @@ import ast
 
 from sa import term as T
 from sa.effects import Effects
-from sa.interp import Interp, SVar
+from sa.interp import Interp, Opaque, SVar
 from sa.scipp_model import Model
 from sa.kernel import P, make_param, run_kernel
 from sa.load import AnalysisError, Repo, loc
@@ -90,7 +90,7 @@ class PlateauModel(Model):
 
 class PlateauInterp(Interp):
     def iterate(self, v, node):
-        if isinstance(v, SVar):
+        if isinstance(v, SVar | Opaque):
             return []  # no plateau is inspected by the total-drift guard (an additional refusal, not decided)
         return super().iterate(v, node)
 
